@@ -255,10 +255,9 @@ theorem sideGot_handle {x : SideSt} (hs : SideShape x) (h : SideGot x) (fails : 
       have hcb' : (registerAll { x with delivered := upd x.delivered id (x.delivered id ++ [v]) } v.chans).cbs id ≠ none := by
         rw [registerAll_cbs]; simp only []; rw [hcb]; simp
       split
-      · apply sideGot_localClose
-        split
-        · exact sideGot_cbData h2 v hcb' rfl rfl rfl rfl rfl
-        · exact sideGot_cbData h2 v hcb' rfl rfl rfl rfl rfl
+      · split
+        · exact sideGot_localClose (by exact sideGot_cbData h2 v hcb' rfl rfl rfl rfl rfl) _ _ _
+        · exact sideGot_epilogue (by exact sideGot_cbData h2 v hcb' rfl rfl rfl rfl rfl) false
       · exact sideGot_cbData h2 v hcb' rfl rfl rfl rfl rfl
     · next hcb =>
       split
@@ -622,10 +621,9 @@ theorem nm_handle {x : SideSt} {id : Nat} (hs : SideShape x) (h : NM x id) (fail
     simp only [handle]
     split
     · split
-      · apply nm_localClose
-        split
-        · exact nm_congr h2 rfl rfl
-        · exact nm_congr h2 rfl rfl
+      · split
+        · exact nm_localClose (by exact nm_congr h2 rfl rfl) _ _ _
+        · exact nm_epilogue (by exact nm_congr h2 rfl rfl) false
       · exact nm_congr h2 rfl rfl
     · split
       · next q hr hq =>
